@@ -109,6 +109,7 @@ class Contract:
         self.snapshots = dict(kw.pop("snapshots", {}))  # label -> callee simple name (heap snapshot after its first call)
         self.variant = kw.pop("variant", None)  # termination measure for recursive calls
         self.ensures_locals = _named(kw.pop("ensures_locals", {}), "lpost")  # postconditions that may mention final locals
+        self.shards = kw.pop("shards", 1)  # split this function's obligations over several worker processes
         self.axioms = dict(kw.pop("axioms", {}))  # assumed facts (each listed in the evidence as trusted)
         self.emits = kw.pop("emits", None)  # frame for effect events: names this function may emit (None: unspecified)
         self.asserts = list(kw.pop("asserts", []))  # [dict(before=<source prefix>, clause=..., label=...)]
